@@ -689,7 +689,7 @@ impl<'w, 's, F: QueryFilter> Query<'w, 's, (), F> {
 }
 impl QueryData for () { type Item<'w> = (); type Comp = NoComp; type ReadOnly = (); unsafe fn fetch<'w>(_: *mut World, _: Entity) -> Option<Self::Item<'w>> { Some(()) } unsafe fn from_ptr<'w>(_: *mut NoComp, _: Entity) -> Self::Item<'w> {} }
 impl ReadOnlyQueryData for () {}
-pub struct Query<'w, 's, D: QueryData, F = ()> { world: *mut World, single: Option<(Entity, *mut D::Comp)>, _p: PhantomData<(&'w (), &'s (), D, F)> }
+pub struct Query<'w, 's, D: QueryData, F = ()> { world: *mut World, single: Option<(Entity, *mut D::Comp, bool)>, _p: PhantomData<(&'w (), &'s (), D, F)> }
 unsafe impl<D: QueryData, F> Send for Query<'_, '_, D, F> {}
 unsafe impl<D: QueryData, F> Sync for Query<'_, '_, D, F> {}
 impl<'w, 's, D: QueryData, F> Query<'w, 's, D, F> {
@@ -697,21 +697,29 @@ impl<'w, 's, D: QueryData, F> Query<'w, 's, D, F> {
     /// Verification aid: a query over a 'world' in which exactly `e` carries the component `*c` (or nobody, for `None`);
     /// avoids the type-erased component storage (CBMC cost). Only `get`/`get_mut`/`contains` are meaningful on it.
     #[doc(hidden)] pub fn verif_single(e: Entity, c: Option<&'w mut D::Comp>) -> Self {
-        Query { world: core::ptr::null_mut(), single: Some((e, match c { Some(c) => c as *mut D::Comp, None => core::ptr::null_mut() })), _p: PhantomData }
+        Query { world: core::ptr::null_mut(), single: Some((e, match c { Some(c) => c as *mut D::Comp, None => core::ptr::null_mut() }, true)), _p: PhantomData }
+    }
+    /// Verification aid: a filter query (`Query<(), With<T>>`) over a 'world' in which `e` matches the filter iff `matches`.
+    #[doc(hidden)] pub fn verif_single_filter(e: Entity, matches: bool) -> Self {
+        Query { world: core::ptr::null_mut(), single: Some((e, core::ptr::NonNull::<D::Comp>::dangling().as_ptr(), matches)), _p: PhantomData }
     }
     pub fn get(&self, e: Entity) -> Result<<D::ReadOnly as QueryData>::Item<'_>, ecs::query::QueryEntityError<'static>> {
-        if let Some((se, p)) = self.single {
-            return if se == e && !p.is_null() { Ok(unsafe { <D::ReadOnly as QueryData>::from_ptr(p, e) }) } else { Err(ecs::query::QueryEntityError::NoSuchEntity(e, PhantomData)) };
+        if let Some((se, p, f)) = self.single {
+            return if se == e && !p.is_null() && f { Ok(unsafe { <D::ReadOnly as QueryData>::from_ptr(p, e) }) } else { Err(ecs::query::QueryEntityError::NoSuchEntity(e, PhantomData)) };
         }
         unsafe { <D::ReadOnly as QueryData>::fetch(self.world, e) }.ok_or(ecs::query::QueryEntityError::NoSuchEntity(e, PhantomData))
     }
     pub fn get_mut(&mut self, e: Entity) -> Result<D::Item<'_>, ecs::query::QueryEntityError<'static>> {
-        if let Some((se, p)) = self.single {
-            return if se == e && !p.is_null() { Ok(unsafe { D::from_ptr(p, e) }) } else { Err(ecs::query::QueryEntityError::NoSuchEntity(e, PhantomData)) };
+        if let Some((se, p, f)) = self.single {
+            return if se == e && !p.is_null() && f { Ok(unsafe { D::from_ptr(p, e) }) } else { Err(ecs::query::QueryEntityError::NoSuchEntity(e, PhantomData)) };
         }
         unsafe { D::fetch(self.world, e) }.ok_or(ecs::query::QueryEntityError::NoSuchEntity(e, PhantomData))
     }
-    pub fn contains(&self, e: Entity) -> bool { if let Some((se, p)) = self.single { return se == e && !p.is_null(); } unsafe { (*self.world).get::<D::Comp>(e).is_some() } }
+    pub fn contains(&self, e: Entity) -> bool where F: QueryFilter {
+        if let Some((se, p, f)) = self.single { return se == e && !p.is_null() && f; }
+        let w = unsafe { &*self.world };
+        w.entities.contains(e) && unsafe { <D::ReadOnly as QueryData>::fetch(self.world, e) }.is_some() && F::matches(w, e)
+    }
     fn only(&self) -> Entity {
         let w = unsafe { &*self.world };
         let mut found = None;
